@@ -33,9 +33,11 @@ def tasks(tier):
     d = {"quick": 4, "thorough": 6}[tier]
     out = []
     for alpha in ALPHABETS:
-        for init in ("empty", "prefilled"):
+        for init in ("empty", "prefilled", "prefilled_dup"):
             out.append({"kind": "uf", "alphabet": alpha, "init": init,
                         "depth": d + (1 if alpha == "ints" else 0)})
+    for lo in range(0, 105, 7):
+        out.append({"kind": "uf", "alphabet": "ints", "init": "prefilled", "depth": 0, "schedule": "binomial8", "lo": lo, "hi": lo + 7})
     # Priority queue. The search is split by the first event (every history of length >= 1 starts with exactly one
     # of them); the task with the empty prefix explores depth 1 only so that the initial state is covered too.
     # Family A: two distinguishable items (ties between different items), family B: one item name, deeper (heap
@@ -56,6 +58,9 @@ class UFState:
     def __init__(self, UnionFind, elements, init):
         if init == "prefilled":
             self.uf = UnionFind(list(elements))
+            self.order = list(elements)
+        elif init == "prefilled_dup":       # the constructor is given an iterable with repeated elements
+            self.uf = UnionFind(list(elements) + [elements[0], elements[-1]])
             self.order = list(elements)
         else:
             self.uf = UnionFind()
@@ -145,11 +150,13 @@ def _run_uf(task, rep: Report):
                     bad("connected", "connected", exc_kind(o), {"x": x, "y": y})
                 elif bool(o.value) != want:
                     bad("connected", "connected", "mismatch:connected", {"x": x, "y": y, "got": o.value})
+        u = copy.deepcopy(st.uf)        # every query kind is the FIRST query on its own copy (no path compression by an earlier one)
         o = call(u.roots)
         if not o.ok:
             bad("roots", "roots", exc_kind(o), {"msg": o.msg})
         elif len(o.value) != len(part):
             bad("roots", "roots", "mismatch:n_roots", {"got": len(o.value), "want": len(part)})
+        u = copy.deepcopy(st.uf)
         o = call(u.components)
         if not o.ok:
             bad("components", "components", exc_kind(o), {"msg": o.msg})
@@ -160,6 +167,7 @@ def _run_uf(task, rep: Report):
                 bad("components", "components", "mismatch:cover", {"got": got})
             elif frozenset(frozenset(c) for c in got) != part:
                 bad("components", "components", "mismatch:partition", {"got": got})
+        u = copy.deepcopy(st.uf)
         o = call(u.component_mapping)
         if not o.ok:
             bad("component_mapping", "component_mapping", exc_kind(o), {"msg": o.msg})
@@ -169,6 +177,7 @@ def _run_uf(task, rep: Report):
                 bad("component_mapping", "component_mapping", "mismatch:mapping",
                     {"got": {repr(k): sorted_repr(v) for k, v in got.items()}})
         for x in st.order:
+            u = copy.deepcopy(st.uf)
             o = call(u.component, x)
             if not o.ok:
                 bad("component", "component", exc_kind(o), {"x": x, "msg": o.msg})
@@ -254,11 +263,58 @@ def _run_uf(task, rep: Report):
         if len(st.order) > 3:
             rep.flag("uf:absent-element-added")
 
+    if task.get("schedule") == "binomial8":
+        # Deep forests: 8 elements merged by unions of equal-size components only (the schedules that make the
+        # weighted forest as deep as it can get: depth 3). Every perfect matching of the 8 elements x both argument
+        # orders of every union, then every pairing of the 4 blocks, then the last union; after every union every
+        # query kind is asked as the FIRST query on its own deep copy.
+        import itertools
+        def matchings(xs):
+            if not xs:
+                yield []; return
+            a = xs[0]
+            for i in range(1, len(xs)):
+                for rest in matchings(xs[1:i] + xs[i + 1:]):
+                    yield [(a, xs[i])] + rest
+        ms = list(matchings(list(range(8))))
+        assert len(ms) == 105
+        nst = 0
+        for mi in range(task["lo"], task["hi"]):
+            M1 = ms[mi]
+            for o1 in itertools.product((0, 1), repeat=4):
+                pairs1 = [(a, b) if o == 0 else (b, a) for (a, b), o in zip(M1, o1)]
+                for M2 in matchings([0, 1, 2, 3]):          # pairing of the four blocks (by index in M1)
+                    for o2 in itertools.product((0, 1), repeat=2):
+                        pairs2 = [(M1[i][0], M1[j][1]) if o == 0 else (M1[j][1], M1[i][0]) for (i, j), o in zip(M2, o2)]
+                        for o3 in (0, 1):
+                            a, b = M1[M2[0][0]][0], M1[M2[1][0]][0]
+                            sched = pairs1 + pairs2 + [(a, b) if o3 == 0 else (b, a)]
+                            st = UFState(UnionFind, list(range(8)), "prefilled")
+                            for (x, y) in sched:
+                                st.uf.union(x, y); st.m_union(x, y)
+                            check_invariants(st, [["union", x, y] for x, y in sched])
+                            nst += 1
+                            rep.case(("binomial8", tuple(st.uf._par)))
+                            if max(_depths(st.uf)) >= 3:
+                                rep.flag("uf:forest_depth>=3")
+        rep.states += nst; rep.transitions += 7 * nst; rep.traces += nst
+        rep.count("uf_binomial8_schedules", nst)
+        return
     res = bfs(make, lambda st: events, apply, key_of, task["depth"], on_state=on_state)
     rep.states += res["states"]
     rep.transitions += res["transitions"]
     rep.traces += res["transitions"]        # every transition = one history replayed on fresh real objects
     rep.count("uf_states:" + alpha, res["states"])
+
+
+def _depths(uf):
+    out = []
+    for i in range(len(uf._par)):
+        d, p = 0, i
+        while uf._par[p] != p:
+            p = uf._par[p]; d += 1
+        out.append(d)
+    return out
 
 
 def sorted_repr(s):
@@ -378,7 +434,7 @@ def run_task(task, rep: Report):
 
 def finish(tier, rep: Report):
     fails = []
-    for f in ("uf:nontrivial-block", "uf:absent-element-added", "pq:tie", "pq:inf"):
+    for f in ("uf:nontrivial-block", "uf:absent-element-added", "uf:forest_depth>=3", "pq:tie", "pq:inf"):
         if f not in rep.flags:
             fails.append("coverage flag missing: " + f)
     for kind in ("find", "connected", "get", "empty", "in"):
